@@ -371,3 +371,24 @@ Lemma missing_matrix_is_error : forall n (step : list (list T) -> nat -> St -> S
     (affinity_dispatch {| a_kind := kind; a_fn := VC (CStr "precomputed"); a_params := anyparams |} false) = None.
 Proof. reflexivity. Qed.
 End Congruence.
+
+(* ------------------------------------------------------------------ score resolves the GEMINI at call time *)
+(* documented: score(X, y) = GEMINI described by the CURRENT hyper-parameters, evaluated on predict_proba(X)
+   with the affinity that GEMINI computes from (X, y): both come from self.get_gemini() called inside score;
+   no attribute is read directly (in particular nothing remembered from fit) and none is written *)
+Definition doc_score_discriminative : mexpr :=
+  let g := MSelfCall "get_gemini" [] in
+  MApply g [MSelfCall "predict_proba" [MVar "X"]; MMeth g "compute_affinity" [MVar "X"; MVar "y"]].
+(* Kauri: its own objective on predict(X) with _compute_kernel(X, y), which reads self.kernel when called *)
+Definition doc_score_kauri : mexpr :=
+  MFn "gemini_objective" [MSelfCall "predict" [MVar "X"]; MSelfCall "_compute_kernel" [MVar "X"; MVar "y"]].
+Definition score_core (cls : string) : option (mexpr * list string) :=
+  option_map (fun tw => (strip_conv (fst tw), snd tw)) (score_term classes cls).
+
+Lemma score_uses_current_params :
+  (forall cls d, In (cls, d) documented -> score_core cls = Some (doc_score_discriminative, [])) /\
+  score_core "Kauri" = Some (doc_score_kauri, []).
+Proof.
+  split; [ | vm_compute; reflexivity ].
+  intros cls d Hin. unfold documented in Hin. split_in Hin; inversion Hin; subst; vm_compute; reflexivity.
+Qed.
